@@ -258,6 +258,28 @@ def _candidates(case):
     eng = case.get("engine")
     if eng == "conc":
         tasks = case.get("tasks", [])
+        if len(tasks) > 3:
+            # Big cases first: keep only two or three tasks (the violating one, when the hint names it, is tried first).
+            import itertools
+            n = len(tasks)
+            order = list(range(n))
+            hint = case.get("_violating_task")
+            if isinstance(hint, int) and 0 <= hint < n:
+                order.remove(hint)
+                order.insert(0, hint)
+            combos = [c for c in itertools.combinations(order, 2)][:40] + [c for c in itertools.combinations(order, 3)][:40]
+            for keep in combos:
+                keep = sorted(keep)
+                c = copy.deepcopy(case)
+                c["tasks"] = [copy.deepcopy(tasks[i]) for i in keep]
+                remap = {old: new for new, old in enumerate(keep)}
+                for k2, t in enumerate(c["tasks"]):
+                    t["id"] = k2
+                    for op in t.get("ops", []):
+                        if op.get("op") == "take":
+                            op["from_task"] = remap.get(op.get("from_task"), 0)
+                c["schedule"] = [remap[x] for x in case.get("schedule", []) if x in remap]
+                yield "keep only tasks %s" % keep, c
         if len(tasks) > 1:
             for i in range(len(tasks)):
                 c = copy.deepcopy(case)
@@ -325,7 +347,7 @@ def _candidates(case):
                 yield "%s := %r" % (key, small), c
 
 
-def minimise(variant, case, cls, budget_execs=300, budget_s=40):
+def minimise(variant, case, cls, budget_execs=500, budget_s=60):
     """Greedy: accept any smaller case that still shows exactly the same violation class."""
     t0 = time.time()
     execs = 0
